@@ -10,7 +10,6 @@ CONSTANTS Families,        \* which template families to explore
           CtxIds,          \* which named contexts
           NParts, Part,    \* this process explores the descriptors whose rank is Part modulo NParts
           MaxSteps,        \* Terminates: bound on the number of opcode steps of one expansion
-          KnownRepeatOverMapping,  \* TRUE iff the recorded finding "tal:repeat over a non-empty mapping" is listed
           KnownRawTextEscaped      \* TRUE iff the recorded finding "script/style content is entity-escaped" is listed (C18)
 
 VARIABLES desc, case, phase, nsteps
@@ -42,7 +41,7 @@ Ref == Sem!Expand(case.tree, G0(case), case.py)
 \* ---- C17 ----
 WellFormed == (phase = "run" /\ nsteps = 0) => WellFormedProg(prog, sym, macros)
 Terminates == nsteps <= MaxSteps
-Completes  == Done => (st.err = "" \/ (KnownRepeatOverMapping /\ st.err = "KeyError"))
+Completes  == Done => st.err = ""
 Refines    == (Done /\ st.err = "") => (st.out = Sem!Doc(Ref.t) /\ st.g = Ref.g)
 \* exactly the cases this run explored, for the replay into the real simpleTAL (binding B2)
 WriteCases == LET ds == SetToSeq(MyDescs) IN
